@@ -994,6 +994,241 @@ def indicator_without_imputation():
 
 
 # ------------------------------------------------------------------ the property
+
+# ------------------------------------------------------------------ translator: option tables out of the source (phase 4)
+import ast
+
+C11_FALLBACK = {
+    "shift_accepted": ["min", "mean", "med", "median"], "scale_accepted": ["minmax", "std", "iqr", "maxabs"],
+    "stat_accepted": ["mean", "median", "mode"],
+    "shift_dispatch": [("min", ["min"]), ("mean", ["fmean"]), ("med", ["median"]), ("median", ["median"])],
+    "scale_dispatch": [("minmax", ["max", "min"]), ("std", ["stdev"]), ("iqr", ["iqr"]), ("maxabs", ["abs", "max"])],
+    "stat_dispatch": [("mean", ["len", "sum"]), ("median", ["median"]), ("mode", ["mode"])],
+    "guard": Fraction(1, 1000000), "handlers": ["TypeError", "ValueError"],
+    "ctor_scale": {"shift": 0, "scale": "minmax", "target": "context", "using": None},
+    "ctor_impute": {"stat": "mean", "indicator": True, "using": None},
+    "env_scale": {"shift": "min", "scale": "minmax", "targets": "context", "using": None},
+    "env_impute": {"stats": "mean", "indicator": True, "using": None},
+}
+
+
+def c11_extract(repo):
+    """read the option tables of Scale / Impute / Environments.scale|impute out of the source with `ast`"""
+    def parse(rel):
+        return ast.parse(open(os.path.join(repo, rel), encoding="utf-8").read())
+
+    def cls(tree, name):
+        for n in tree.body:
+            if isinstance(n, ast.ClassDef) and n.name == name:
+                return n
+        raise LookupError("class %s" % name)
+
+    def fn(c, name):
+        for n in c.body:
+            if isinstance(n, ast.FunctionDef) and n.name == name:
+                return n
+        raise LookupError("%s.%s" % (c.name, name))
+
+    def defaults(f):
+        args = f.args.args
+        ds = f.args.defaults
+        off = len(args) - len(ds)
+        return {a.arg: ast.literal_eval(ds[i - off]) for i, a in enumerate(args) if i >= off}
+
+    def accepted(f, var):
+        for n in ast.walk(f):
+            if isinstance(n, ast.Assert):
+                for c in ast.walk(n.test):
+                    if (isinstance(c, ast.Compare) and len(c.ops) == 1 and isinstance(c.ops[0], ast.In)
+                            and isinstance(c.left, ast.Name) and c.left.id == var):
+                        return [str(x) for x in ast.literal_eval(c.comparators[0])]
+        raise LookupError("assert %s in [...]" % var)
+
+    def names_tested(test):
+        """the string constants an `if x == "a" or x == "b"` test accepts"""
+        out = []
+        tests = test.values if isinstance(test, ast.BoolOp) and isinstance(test.op, ast.Or) else [test]
+        for t in tests:
+            if not (isinstance(t, ast.Compare) and len(t.ops) == 1 and isinstance(t.ops[0], ast.Eq)
+                    and isinstance(t.comparators[0], ast.Constant) and isinstance(t.comparators[0].value, str)):
+                raise LookupError("unexpected test %s" % ast.unparse(test))
+            out.append(t.comparators[0].value)
+        return out
+
+    def calls(node):
+        return sorted({c.func.id for c in ast.walk(node) if isinstance(c, ast.Call) and isinstance(c.func, ast.Name)})
+
+    def if_chain(f):
+        """all `if`/`elif` statements of a function body, flattened"""
+        out = []
+        def walk(stmts):
+            for s in stmts:
+                if isinstance(s, ast.If):
+                    out.append(s)
+                    walk(s.orelse)
+                elif isinstance(s, ast.Try):
+                    walk(s.body)
+        walk(f.body)
+        return out
+
+    filt = parse("coba/environments/filters.py")
+    core = parse("coba/environments/core.py")
+    scale, impute, envs = cls(filt, "Scale"), cls(filt, "Impute"), cls(core, "Environments")
+    r = {}
+    r["shift_accepted"] = accepted(fn(scale, "__init__"), "shift")
+    r["scale_accepted"] = accepted(fn(scale, "__init__"), "scale")
+    r["stat_accepted"] = accepted(fn(impute, "__init__"), "stat")
+    sd = []
+    for s in if_chain(fn(scale, "_shift_value")):
+        ret = [x for x in s.body if isinstance(x, ast.Return)]
+        if len(ret) != 1:
+            raise LookupError("_shift_value branch without a single return")
+        for nm in names_tested(s.test):
+            sd.append((nm, calls(ret[0])))
+    r["shift_dispatch"] = sd
+    cd = []
+    sv = fn(scale, "_scale_value")
+    for s in if_chain(sv):
+        den = [x for x in s.body if isinstance(x, ast.Assign) and any(isinstance(t, ast.Name) and t.id == "scale_den" for t in x.targets)]
+        if len(den) != 1:
+            raise LookupError("_scale_value branch without scale_den")
+        for nm in names_tested(s.test):
+            cd.append((nm, calls(den[0].value)))
+    r["scale_dispatch"] = cd
+    guard = None
+    for n in ast.walk(sv):
+        if isinstance(n, ast.IfExp) and isinstance(n.test, ast.Compare) and isinstance(n.test.ops[0], ast.Lt) \
+                and isinstance(n.test.comparators[0], ast.Constant):
+            seg = ast.get_source_segment(open(os.path.join(repo, "coba/environments/filters.py"), encoding="utf-8").read(), n.test.comparators[0])
+            guard = Fraction(seg if seg else repr(n.test.comparators[0].value))
+    if guard is None:
+        raise LookupError("guard constant")
+    r["guard"] = guard
+    td = []
+    gi = fn(impute, "_get_imputation")
+    for s in if_chain(gi):
+        ret = [x for x in s.body if isinstance(x, ast.Return)]
+        if len(ret) == 1 and isinstance(s.test, ast.Compare) and isinstance(s.test.ops[0], ast.Eq):
+            for nm in names_tested(s.test):
+                td.append((nm, calls(ret[0])))
+    r["stat_dispatch"] = td
+    hs = None
+    for n in ast.walk(fn(scale, "_get_shift_and_scale")):
+        if isinstance(n, ast.ExceptHandler):
+            t = n.type
+            hs = [] if t is None else [x.id for x in (t.elts if isinstance(t, ast.Tuple) else [t])]
+            if t is None:
+                hs = ["BaseException"]
+    if hs is None:
+        raise LookupError("except clause of _get_shift_and_scale")
+    r["handlers"] = hs
+    r["ctor_scale"] = defaults(fn(scale, "__init__"))
+    r["ctor_impute"] = defaults(fn(impute, "__init__"))
+    r["env_scale"] = defaults(fn(envs, "scale"))
+    r["env_impute"] = defaults(fn(envs, "impute"))
+    return r
+
+
+def c11_options_lean(r, extracted, note):
+    def strs(l):
+        return "[%s]" % ", ".join('"%s"' % x for x in l)
+
+    def table(t):
+        return "[%s]" % ", ".join('("%s", %s)' % (n, strs(c)) for n, c in t)
+
+    def rat(x):
+        f = Fraction(x)
+        return "((%d : Rat) / %d)" % (f.numerator, f.denominator)
+
+    def shift(v):
+        if isinstance(v, str):
+            return {"min": ".min", "mean": ".mean", "med": ".median", "median": ".median"}[v]
+        if isinstance(v, bool) or not isinstance(v, (int, float)):
+            raise ValueError("shift default %r" % (v,))
+        return "(.num %s)" % rat(v)
+
+    def scl(v):
+        if isinstance(v, str):
+            return {"minmax": ".minmax", "std": ".std", "iqr": ".iqr", "maxabs": ".maxabs"}[v]
+        if isinstance(v, bool) or not isinstance(v, (int, float)):
+            raise ValueError("scale default %r" % (v,))
+        return "(.num %s)" % rat(v)
+
+    def using(v):
+        if v is None:
+            return "none"
+        if isinstance(v, bool) or not isinstance(v, int) or v < 0:
+            raise ValueError("using default %r" % (v,))
+        return "(some %d)" % v
+
+    def stat(v):
+        return {"mean": ".mean", "median": ".median", "mode": ".mode"}[v]
+
+    def lst(v):
+        return [v] if isinstance(v, str) else list(v)
+
+    cs, ci, es, ei = r["ctor_scale"], r["ctor_impute"], r["env_scale"], r["env_impute"]
+    if not isinstance(ci["indicator"], bool) or not isinstance(ei["indicator"], bool):
+        raise ValueError("indicator default")
+    return (
+        "-- GENERATED by harness/props/c11.py from coba/environments/filters.py and coba/environments/core.py on every run; do not edit.\n"
+        "-- %s\n"
+        "import CobaVerif.Model.C11\nnamespace Coba.Generated.C11\nopen Coba.C11\n"
+        "def extracted : Bool := %s\n"
+        "def shiftAccepted : List String := %s\ndef scaleAccepted : List String := %s\ndef statAccepted : List String := %s\n"
+        "def shiftDispatch : List (String × List String) := %s\n"
+        "def scaleDispatch : List (String × List String) := %s\n"
+        "def statDispatch : List (String × List String) := %s\n"
+        "def guard : Rat := %s\n"
+        "def handlers : List String := %s\n"
+        "def ctorScale : ScaleCfg := { cfg := { shift := %s, scale := %s, usingN := %s }, target := \"%s\" }\n"
+        "def envScale : List ScaleCfg := %s\n"
+        "def ctorImpute : Stat × Bool × Option Nat := (%s, %s, %s)\n"
+        "def envImpute : List (Stat × Bool × Option Nat) := %s\n"
+        "end Coba.Generated.C11\n"
+    ) % (note, "true" if extracted else "false",
+         strs(r["shift_accepted"]), strs(r["scale_accepted"]), strs(r["stat_accepted"]),
+         table(r["shift_dispatch"]), table(r["scale_dispatch"]), table(r["stat_dispatch"]),
+         rat(r["guard"]), strs(r["handlers"]),
+         shift(cs["shift"]), scl(cs["scale"]), using(cs["using"]), str(cs["target"]),
+         "[%s]" % ", ".join("{ cfg := { shift := %s, scale := %s, usingN := %s }, target := \"%s\" }"
+                            % (shift(es["shift"]), scl(es["scale"]), using(es["using"]), t) for t in lst(es["targets"])),
+         stat(ci["stat"]), "true" if ci["indicator"] else "false", using(ci["using"]),
+         "[%s]" % ", ".join("(%s, %s, %s)" % (stat(s), "true" if ei["indicator"] else "false", using(ei["using"])) for s in lst(ei["stats"])))
+
+
+def fit_exception_impl(case, wcol):
+    """what the `try` body of the real Scale._get_shift_and_scale does on one window column: 'ok' or the exception class"""
+    from coba.environments.filters import Scale
+    s = Scale(param_py(case["shift"]), param_py(case["scale"]))
+    if not (hasattr(s, "_shift_value") and hasattr(s, "_scale_value")):
+        return None
+    try:
+        values = [v for v in wcol if v is not None and v == v]
+        shift = s._shift_value(values)
+        s._scale_value(values, shift)
+        return "ok"
+    except Exception as e:  # noqa: the class is the observable
+        return type(e).__name__
+
+
+def window_columns_py(case):
+    """the window columns `Scale.filter` hands to _get_shift_and_scale, as python values, for EVERY feature (dense index
+    order / sparse first-appearance order over all rows / the scalar itself)"""
+    kind, rows = case["kind"], case["rows"]
+    win = window_rows(case, rows)
+    if kind == "scalar":
+        return [(0, [to_py(v) for v in win])]
+    if kind == "dense":
+        return [(k, [to_py(r[k]) for r in win]) for k in range(len(rows[0]))]
+    keys = []
+    for r in rows:
+        for k, _ in r:
+            if k not in keys:
+                keys.append(k)
+    return [(k, [to_py(dict((a, b) for a, b in r).get(k, V(0))) for r in win]) for k in keys]
+
+
 SHIFTS = ["min", "mean", "median", "med"]
 SCALES = ["minmax", "std", "iqr", "maxabs"]
 
@@ -1044,7 +1279,79 @@ class C11(Property):
     ]
     partial_theorems = {}   # phase 2: the two sparse `_partial` theorems were lifted (fixes for C11-F9/F10 proposed, model mirrors them)
 
+    # ---- translator step (phase 4): Generated/C11Options.lean from the CURRENT source
+    def pre_build(self):
+        from core import lean
+        repo = os.environ.get("COBA_REPO", "/repo")
+        path = os.path.join(lean.LEAN_DIR, "CobaVerif", "Generated", "C11Options.lean")
+        try:
+            r = c11_extract(repo)
+            body = c11_options_lean(r, True, "option tables, dispatch, guard constant, except clause and defaults extracted from the source")
+            note = ("C11 options extracted: shift %s, scale %s, stat %s, guard %s, except %s, defaults Scale%s Environments.scale%s"
+                    % (r["shift_accepted"], r["scale_accepted"], r["stat_accepted"], r["guard"], r["handlers"],
+                       sorted(r["ctor_scale"].items()), sorted(r["env_scale"].items())))
+        except Exception as e:  # source reshaped: the obligations are then stated about the last known tables only
+            body = c11_options_lean(C11_FALLBACK, False, "NOT extracted (%s: %s); last known tables" % (type(e).__name__, str(e)[:80].replace("\n", " ")))
+            note = "C11 options could not be extracted (%s); outputs and .params correspondence still pin them" % type(e).__name__
+        old = open(path, encoding="utf-8").read() if os.path.exists(path) else None
+        if old != body:
+            os.makedirs(os.path.dirname(path), exist_ok=True)
+            with open(path, "w", encoding="utf-8") as f:
+                f.write(body)
+        return [note]
+
     # ---- generators
+    def gen_ragged(self, rng, tier):
+        """dense contexts of DIFFERENT lengths (outside the quantifier; (A) only): a short / long row inside or after the
+        window, columns with and without parameters"""
+        n = rng.randint(2, 6)
+        m = rng.randint(1, 4)
+        rows = []
+        for i in range(n):
+            row = []
+            for j in range(m):
+                r = rng.below(10)
+                row.append(V("s%d" % rng.below(3)) if (j == 1 and r < 6) or r == 0 else None if r == 1 else self.gen_number(rng, rng.choice(["int", "dyadic"])))
+            rows.append(row)
+        for _ in range(rng.choice([1, 1, 2])):
+            i = rng.choice([0, n - 1, rng.below(n), rng.below(n)])
+            if rng.chance(0.7):
+                rows[i] = rows[i][:rng.below(len(rows[i]) + 1)] if rows[i] else rows[i]
+            else:
+                rows[i] = rows[i] + [self.gen_number(rng, "int")]
+        if not rows[0]:
+            rows[0] = [self.gen_number(rng, "int")]
+        return {"op": "scale", "kind": "dense", "ragged": True, "container": rng.choice(["tuple", "list"]), "rows": rows,
+                "shift": self.gen_param(rng, SHIFTS, [V(0), V(1), V(0.5, "f")]), "scale": self.gen_param(rng, SCALES, [V(2), V(0.5, "f"), V(-3)]),
+                "using": rng.choice([None, None, 1, 1, 2, n, n + 1, rng.randint(1, n)]), "via": "filter", "itype": rng.choice(["sim", "dict"])}
+
+    def evaluate_ragged(self, case, driver):
+        """ragged dense rows: outside the property's quantifier, so only (A): exception class / outputs vs `scaleDenseE`"""
+        rows = case["rows"]
+        tags = ["op:scale", "kind:dense", "ragged", "outside-quantifier:ragged",
+                "shift:" + (case["shift"] if isinstance(case["shift"], str) else "number"),
+                "scale:" + (case["scale"] if isinstance(case["scale"], str) else "number")]
+        impl = run_impl(case)
+        fails = []
+        rect = all(len(r) == len(rows[0]) for r in rows)
+        tags.append("ragged:rect" if rect else "ragged:" + ("raises-" + impl["err"] if "err" in impl else "passes"))
+        if "err" in impl and impl["err"] != "IndexError":
+            fails.append(F("B", "scale raised %s(%s) on dense contexts of different lengths" % (impl["err"], impl.get("msg")), "scale-raises-%s:ragged" % impl["err"]))
+        if "err" not in impl and (impl["n"] != len(rows) or not impl.get("others_ok", True)):
+            fails.append(F("B", "interactions or fields other than the context changed: %s" % impl.get("others_bad"), "scale-other-field-changed"))
+        model = None
+        if driver is not None:
+            ans = driver.ask({"op": "ragged", "rows": self.rows_to_lean("dense", rows), "shift": param_lean(case["shift"]),
+                              "scale": param_lean(case["scale"]), "using": case.get("using")})
+            model = ans["model"]
+            if ans["rect"] != rect:
+                fails.append(F("A", "Rect differs: model %s" % ans["rect"], "A:scale:ragged:rect"))
+            d = self.compare_model(case, impl, ans)
+            if d:
+                fails.append(F("A", "ragged dense contexts: implementation and model (scaleDenseE) differ: %s" % d[1], "A:scale:ragged:%s" % d[0]))
+        return {"fails": fails, "nontrivial": "out" in impl and self.changed(case, impl) if all(len(o.get("v", [])) == len(r) for o, r in zip(impl.get("out", []), rows)) else False,
+                "tags": tags, "impl": impl, "model": model}
+
     def gen_number(self, rng, style):
         if style == "int":
             return V(rng.randint(-9, 9))
@@ -1152,6 +1459,8 @@ class C11(Property):
     def generate(self, rng, tier):
         if rng.chance(0.2):
             return self.generate_seq(rng, tier)
+        if rng.chance(0.05):
+            return self.gen_ragged(rng, tier)
         return self.generate_single(rng, tier)
 
     def generate_seq(self, rng, tier):
@@ -1367,6 +1676,21 @@ class C11(Property):
         cs.append({"op": "impute", "kind": "dense", "rows": [[None, n(1)], [V("a"), None], [V("b"), n(2)], [V("c"), n(2)]], "stats": ["median"], "ind": True, "using": None, "via": "filter", "itype": "sim"})
         cs.append({"op": "impute", "kind": "sparse", "rows": [[["a", V("x")]], [["a", None]]], "stats": ["mean"], "ind": False, "using": None, "via": "filter", "itype": "sim"})
         cs.append({"op": "scale", "kind": "scalar", "rows": [V("a"), None, V("b")], "shift": n(0), "scale": n(2), "using": None, "via": "filter", "itype": "sim"})
+        # phase 4: every exception class of _get_shift_and_scale (all-missing / single-value / string windows x every option)
+        for sh in ("min", "mean", "median", "med", n(0), f(1.5)):
+            for sc in ("minmax", "std", "iqr", "maxabs", n(2)):
+                for tab in ([[None, NAN], [None, n(1)], [n(2), n(3)]], [[n(1), V("a")], [n(2), None], [n(4), V("b")]],
+                            [[n(1), V("a")], [None, n(1)], [n(3), n(2)]]):
+                    cs.append({"op": "scale", "kind": "dense", "container": "tuple", "rows": tab, "shift": sh, "scale": sc, "using": 1 if tab[0][0] is None else 2,
+                               "via": "filter", "itype": "sim"})
+                cs.append({"op": "scale", "kind": "scalar", "rows": [None, NAN, n(3)], "shift": sh, "scale": sc, "using": 2, "via": "filter", "itype": "sim"})
+        # phase 4: ragged dense rows (outside the quantifier, (A) against scaleDenseE)
+        for using in (None, 1, 2):
+            for sh, sc in ((n(0), n(2)), ("min", "minmax"), (n(0), "std"), ("mean", "iqr")):
+                for tab in ([[n(1), n(2)], [n(3)]], [[n(1), V("x"), n(5)], [n(2)]], [[n(1)], [n(2), n(7)], [n(4)]], [[n(1), n(2)], [n(3), n(5)], []],
+                            [[n(1), n(2), n(3)], [n(3), n(4), n(5)], [n(6), n(1)]], [[V("a"), n(1)], [V("b")], [V("c"), n(3)]]):
+                    cs.append({"op": "scale", "kind": "dense", "ragged": True, "container": "tuple", "rows": tab, "shift": sh, "scale": sc, "using": using,
+                               "via": "filter", "itype": "sim"})
         return cs
 
     def exhaustive(self, tier):
@@ -1429,6 +1753,8 @@ class C11(Property):
     def evaluate(self, case, driver):
         if "seq" in case:
             return self.evaluate_seq(case, driver)
+        if case.get("ragged"):
+            return self.evaluate_ragged(case, driver)
         return self.evaluate_single(case, driver)
 
     def evaluate_seq(self, case, driver):
@@ -1657,6 +1983,8 @@ class C11(Property):
                     fails.append(F("A", "implementation and model differ: %s" % d[1], "A:%s:%s:%s" % (op, kind, d[0])))
                 if op == "scale" and case["scale"] == "std":
                     fails += self.check_variance(case, driver, tags)
+                if op == "scale" and model_ans is None and "fites" in ans:
+                    fails += self.check_fit_exceptions(case, ans["fites"], tags)
                 # (C) the model itself against the exact reference (run-time guard of the theorems' plumbing); the two
                 #     recorded sparse-key-outside-window deviations are the `_partial` hypotheses and are not demanded
                 if "err" not in model and not outside:
@@ -1702,6 +2030,29 @@ class C11(Property):
         if len(extra) != 3 * n:
             return "%d filter parameters, the arguments give %d filters" % (len(extra), n)
         return None
+
+    def check_fit_exceptions(self, case, fites, tags):
+        """(A) exception VALUES: what the `try` body of the real _get_shift_and_scale raises on every window column (class of
+        the exception, or ok) against the model's `fitE`"""
+        out = []
+        cols = window_columns_py(case)
+        if len(cols) != len(fites):
+            return [F("A", "fitE: %d window columns, model %d" % (len(cols), len(fites)), "A:scale:fitE:columns")]
+        for (k, wcol), fe in zip(cols, fites):
+            m = fe[1] if isinstance(fe, list) else fe
+            got = fit_exception_impl(case, wcol)
+            if got is None:
+                return out
+            tags.append("fitE:" + got)
+            if any(isinstance(v, str) for v in wcol) and got != "ok":
+                tags.append("fitE:string-window-" + got)
+            if got != m:
+                out.append(F("A", "window column %r = %r under shift=%s scale=%s: the statistics raise %s, the model's fitE says %s"
+                             % (k, wcol, show(case["shift"]) if not isinstance(case["shift"], str) else case["shift"],
+                                show(case["scale"]) if not isinstance(case["scale"], str) else case["scale"], got, m),
+                             "A:scale:fitE:%s-vs-%s" % (got, m)))
+                break
+        return out
 
     def check_variance(self, case, driver, tags):
         """`std`: the model's exact sample variance = statistics.variance (the function coba's stdev is the root of), and
